@@ -235,6 +235,12 @@ def remMain (lines : Array String) : IO Unit := do
       w := {}
     | "lists" :: n :: _ => nl := nat! n
     | "do" :: rest =>
+      -- `rremoveheld R L H`: the user keeps the node alive (`handle.lock()`), detaches the listener directly
+      -- (`remove L H`) and then removes it through the remover: the remover's answer is what is reported
+      let (w0, rest) := match rest with
+        | ["rremoveheld", r, l, h] => ((Evp.Rem.step w (.remove (nat! l) (nat! h))).1, ["rremove", r, h])
+        | _ => (w, rest)
+      w := w0
       match parseROp rest with
       | some op =>
         let (w', o) := Evp.Rem.step w op
